@@ -1,5 +1,12 @@
 (* C16, part 3: export_palette followed by load_palette returns the colour sequence (Model/PaletteFiles.v over the
-   line printers generated in Gen/PaletteSrc.v), for palettes of any length. *)
+   line printers generated in Gen/PaletteSrc.v), for palettes of any length.
+
+   Structure: the exporters print title / author / description / colour names through `single_line` (generated:
+   line breaks become a blank).  `verbatim_export_*` are the same exporters over the `exp_*_verbatim` printers
+   (same format strings, text copied as it is = the code before the fix of the finding
+   metadata-line-feed-roundtrip-colours-differ).  The round trip is proved for the verbatim exporters under
+   `wf_meta` (no line feed in a text the format writes), then `export f p = verbatim_export f (clean p)` with
+   `clean` = single_line on every text, and `wf_meta f (clean p)` always holds. *)
 From Coq Require Import NArith List Bool Lia Arith.
 From IE Require Import Lib.Tbl Lib.Bits Lib.C16Lib Gen.PaletteSrc Model.Palette Model.PaletteFiles Proofs.PaletteProofs.
 Import ListNotations.
@@ -397,6 +404,30 @@ Proof.
 Qed.
 
 (* ================================================================================================ *)
+(* the exporters over the verbatim printers (the code before the sanitising step)                    *)
+
+Definition verbatim_export_gpl (p : palette) : str :=
+  exp_gpl_l0 ++ exp_gpl_title_verbatim (ptitle p) ++ exp_gpl_author_verbatim (pauthor p)
+  ++ exp_gpl_description_verbatim (pdescription p) ++ exp_gpl_count (plen p)
+  ++ flat_map (on_rgb (fun r g b => exp_gpl_color_verbatim r g b (pdescription p))) (pcolors p).
+
+Definition verbatim_ice_color_lines (c : color) : str :=
+  match cname c with Some name => exp_ice_name_verbatim name | None => [] end ++ on_rgb exp_ice_color c.
+Definition verbatim_export_ice (p : palette) : str :=
+  exp_ice_l0 ++ exp_ice_title_verbatim (ptitle p) ++ exp_ice_author_verbatim (pauthor p)
+  ++ exp_ice_description_verbatim (pdescription p) ++ exp_ice_count (plen p)
+  ++ flat_map verbatim_ice_color_lines (pcolors p).
+
+Definition verbatim_export_txt (p : palette) : str :=
+  exp_txt_l0 ++ exp_txt_title_verbatim (ptitle p) ++ exp_txt_author_verbatim (pauthor p)
+  ++ exp_txt_description_verbatim (pdescription p) ++ exp_txt_count (plen p)
+  ++ flat_map (on_rgb exp_txt_color) (pcolors p).
+
+Definition verbatim_export (f : format) (p : palette) : str :=
+  match f with Hex => export_hex p | Pal => export_pal p | Gpl => verbatim_export_gpl p
+             | Ice => verbatim_export_ice p | Txt => verbatim_export_txt p end.
+
+(* ================================================================================================ *)
 (* GIMP GPL                                                                                           *)
 
 Lemma gpl_skips : skips gpl_line ld_gpl_comment.
@@ -408,15 +439,15 @@ Proof. reflexivity. Qed.
 Lemma repeat_no_nl k : no_nl (repeat 32 k).
 Proof. induction k; constructor; [discriminate|assumption]. Qed.
 
-Lemma gpl_color_line r g b d : r < 256 -> g < 256 -> b < 256 -> no_nl d ->
-  line_ok gpl_line (exp_gpl_color r g b d) [(r, g, b)].
+Lemma gpl_color_line_verbatim r g b d : r < 256 -> g < 256 -> b < 256 -> no_nl d ->
+  line_ok gpl_line (exp_gpl_color_verbatim r g b d) [(r, g, b)].
 Proof.
   intros Hr Hg Hb Hd.
   pose proof (fmt_dec_token r Hr) as Tr. pose proof (fmt_dec_token g Hg) as Tg. pose proof (fmt_dec_token b Hb) as Tb.
   set (kr := (3 - length (fmt_dec r))%nat). set (kg := (3 - length (fmt_dec g))%nat). set (kb := (3 - length (fmt_dec b))%nat).
   exists ((repeat 32 kr ++ fmt_dec r ++ (32 :: repeat 32 kg) ++ fmt_dec g ++ (32 :: repeat 32 kb) ++ fmt_dec b) ++ 32 :: d).
   split; [|split].
-  - unfold exp_gpl_color, fmt_str. rewrite !w3_shape. fold kr kg kb. rewrite <- ?app_assoc. cbn [app]. rewrite <- ?app_assoc. reflexivity.
+  - unfold exp_gpl_color_verbatim, fmt_str. rewrite !w3_shape. fold kr kg kb. rewrite <- ?app_assoc. cbn [app]. rewrite <- ?app_assoc. reflexivity.
   - repeat apply no_nl_app; try apply repeat_no_nl; try (apply dec_chars_no_nl, fmt_dec_chars);
       try (constructor; [discriminate|]); try apply repeat_no_nl; try exact Hd.
   - rewrite chomp_app_cons by discriminate.
@@ -441,29 +472,29 @@ Proof. intros. apply (comment_seg f cm); try assumption. apply dec_chars_no_nl, 
 
 Ltac lit_facts := first [ apply no_nl_forallb; reflexivity | reflexivity | discriminate ].
 
-Lemma export_import_gpl_proof p : bytes_pal p ->
+Lemma verbatim_export_import_gpl p : bytes_pal p ->
   no_nl (ptitle p) -> no_nl (pauthor p) -> no_nl (pdescription p) ->
-  load_gpl (export_gpl p) = Some (map crgb (pcolors p)).
+  load_gpl (verbatim_export_gpl p) = Some (map crgb (pcolors p)).
 Proof.
-  intros Hb Ht Ha Hd. unfold load_gpl, with_magic, export_gpl.
+  intros Hb Ht Ha Hd. unfold load_gpl, with_magic, verbatim_export_gpl.
   assert (M : exp_gpl_l0 = ld_gpl_magic ++ [10]) by reflexivity.
   assert (Mn : no_nl ld_gpl_magic) by (apply no_nl_forallb; reflexivity).
   assert (Mc : chomp ld_gpl_magic = ld_gpl_magic) by reflexivity.
   rewrite M, lines_line, Mc, list_eqb_refl by exact Mn.
   change (map crgb (pcolors p)) with ([] ++ [] ++ [] ++ [] ++ map crgb (pcolors p)).
-  assert (S1 : seg_ok gpl_line (exp_gpl_title (ptitle p)) []).
-  { unfold exp_gpl_title, fmt_str. rewrite app_assoc. apply (comment_seg gpl_line ld_gpl_comment); try lit_facts; try assumption. apply gpl_skips. }
-  assert (S2 : seg_ok gpl_line (exp_gpl_author (pauthor p)) []).
-  { unfold exp_gpl_author, fmt_str. rewrite app_assoc. apply (comment_seg gpl_line ld_gpl_comment); try lit_facts; try assumption. apply gpl_skips. }
-  assert (S3 : seg_ok gpl_line (exp_gpl_description (pdescription p)) []).
-  { unfold exp_gpl_description, fmt_str. rewrite app_assoc. apply (comment_seg gpl_line ld_gpl_comment); try lit_facts; try assumption. apply gpl_skips. }
+  assert (S1 : seg_ok gpl_line (exp_gpl_title_verbatim (ptitle p)) []).
+  { unfold exp_gpl_title_verbatim, fmt_str. rewrite app_assoc. apply (comment_seg gpl_line ld_gpl_comment); try lit_facts; try assumption. apply gpl_skips. }
+  assert (S2 : seg_ok gpl_line (exp_gpl_author_verbatim (pauthor p)) []).
+  { unfold exp_gpl_author_verbatim, fmt_str. rewrite app_assoc. apply (comment_seg gpl_line ld_gpl_comment); try lit_facts; try assumption. apply gpl_skips. }
+  assert (S3 : seg_ok gpl_line (exp_gpl_description_verbatim (pdescription p)) []).
+  { unfold exp_gpl_description_verbatim, fmt_str. rewrite app_assoc. apply (comment_seg gpl_line ld_gpl_comment); try lit_facts; try assumption. apply gpl_skips. }
   assert (S4 : seg_ok gpl_line (exp_gpl_count (plen p)) []).
   { unfold exp_gpl_count. rewrite app_assoc. apply (count_line_seg gpl_line ld_gpl_comment); try lit_facts. apply gpl_skips. }
   apply S1, S2, S3, S4.
   rewrite <- (app_nil_r (flat_map _ _)), <- (app_nil_r (map crgb _)).
   apply seg_flat_map; [|reflexivity].
   intros c Hc. unfold bytes_pal in Hb. rewrite Forall_forall in Hb. specialize (Hb c Hc).
-  unfold on_rgb. destruct (crgb c) as [[r g] b]. destruct Hb as (Hr & Hg & Hb). apply line_seg, gpl_color_line; assumption.
+  unfold on_rgb. destruct (crgb c) as [[r g] b]. destruct Hb as (Hr & Hg & Hb). apply line_seg, gpl_color_line_verbatim; assumption.
 Qed.
 
 (* ================================================================================================ *)
@@ -490,22 +521,22 @@ Qed.
 Definition names_ok (p : palette) : Prop :=
   Forall (fun c => match cname c with Some n => no_nl n | None => True end) (pcolors p).
 
-Lemma export_import_ice_proof p : bytes_pal p ->
+Lemma verbatim_export_import_ice p : bytes_pal p ->
   no_nl (ptitle p) -> no_nl (pauthor p) -> no_nl (pdescription p) -> names_ok p ->
-  load_ice (export_ice p) = Some (map crgb (pcolors p)).
+  load_ice (verbatim_export_ice p) = Some (map crgb (pcolors p)).
 Proof.
-  intros Hb Ht Ha Hd Hn. unfold load_ice, with_magic, export_ice.
+  intros Hb Ht Ha Hd Hn. unfold load_ice, with_magic, verbatim_export_ice.
   assert (M : exp_ice_l0 = ld_ice_magic ++ [10]) by reflexivity.
   assert (Mn : no_nl ld_ice_magic) by (apply no_nl_forallb; reflexivity).
   assert (Mc : chomp ld_ice_magic = ld_ice_magic) by reflexivity.
   rewrite M, lines_line, Mc, list_eqb_refl by exact Mn.
   change (map crgb (pcolors p)) with ([] ++ [] ++ [] ++ [] ++ map crgb (pcolors p)).
-  assert (S1 : seg_ok ice_line (exp_ice_title (ptitle p)) []).
-  { unfold exp_ice_title, fmt_str. rewrite app_assoc. apply (comment_seg ice_line ld_ice_comment); try lit_facts; try assumption. apply ice_skips. }
-  assert (S2 : seg_ok ice_line (exp_ice_author (pauthor p)) []).
-  { unfold exp_ice_author, fmt_str. rewrite app_assoc. apply (comment_seg ice_line ld_ice_comment); try lit_facts; try assumption. apply ice_skips. }
-  assert (S3 : seg_ok ice_line (exp_ice_description (pdescription p)) []).
-  { unfold exp_ice_description, fmt_str. rewrite app_assoc. apply (comment_seg ice_line ld_ice_comment); try lit_facts; try assumption. apply ice_skips. }
+  assert (S1 : seg_ok ice_line (exp_ice_title_verbatim (ptitle p)) []).
+  { unfold exp_ice_title_verbatim, fmt_str. rewrite app_assoc. apply (comment_seg ice_line ld_ice_comment); try lit_facts; try assumption. apply ice_skips. }
+  assert (S2 : seg_ok ice_line (exp_ice_author_verbatim (pauthor p)) []).
+  { unfold exp_ice_author_verbatim, fmt_str. rewrite app_assoc. apply (comment_seg ice_line ld_ice_comment); try lit_facts; try assumption. apply ice_skips. }
+  assert (S3 : seg_ok ice_line (exp_ice_description_verbatim (pdescription p)) []).
+  { unfold exp_ice_description_verbatim, fmt_str. rewrite app_assoc. apply (comment_seg ice_line ld_ice_comment); try lit_facts; try assumption. apply ice_skips. }
   assert (S4 : seg_ok ice_line (exp_ice_count (plen p)) []).
   { unfold exp_ice_count. rewrite app_assoc. apply (count_line_seg ice_line ld_ice_comment); try lit_facts. apply ice_skips. }
   apply S1, S2, S3, S4.
@@ -513,9 +544,9 @@ Proof.
   apply seg_flat_map; [|reflexivity].
   intros c Hc. unfold bytes_pal in Hb. rewrite Forall_forall in Hb. specialize (Hb c Hc).
   unfold names_ok in Hn. rewrite Forall_forall in Hn. specialize (Hn c Hc).
-  unfold ice_color_lines. change [crgb c] with ([] ++ [crgb c]). apply seg_app.
+  unfold verbatim_ice_color_lines. change [crgb c] with ([] ++ [crgb c]). apply seg_app.
   - destruct (cname c) as [name|]; [|apply seg_nil].
-    unfold exp_ice_name, fmt_str. rewrite app_assoc. apply (comment_seg ice_line ld_ice_comment); try lit_facts; try assumption. apply ice_skips.
+    unfold exp_ice_name_verbatim, fmt_str. rewrite app_assoc. apply (comment_seg ice_line ld_ice_comment); try lit_facts; try assumption. apply ice_skips.
   - unfold on_rgb. destruct (crgb c) as [[r g] b]. destruct Hb as (Hr & Hg & Hb). apply line_seg, ice_color_line; assumption.
 Qed.
 
@@ -541,21 +572,21 @@ Proof.
     cbn [hex8_search hex8_at]. replace (is_hex 70) with true by reflexivity. cbn [andb]. rewrite H6. reflexivity.
 Qed.
 
-Lemma export_import_txt_proof p : bytes_pal p ->
+Lemma verbatim_export_import_txt p : bytes_pal p ->
   no_nl (ptitle p) -> no_nl (pauthor p) -> no_nl (pdescription p) ->
-  load_txt (export_txt p) = Some (map crgb (pcolors p)).
+  load_txt (verbatim_export_txt p) = Some (map crgb (pcolors p)).
 Proof.
-  intros Hb Ht Ha Hd. unfold load_txt, export_txt.
+  intros Hb Ht Ha Hd. unfold load_txt, verbatim_export_txt.
   change (map crgb (pcolors p)) with ([] ++ [] ++ [] ++ [] ++ [] ++ map crgb (pcolors p)).
   assert (S0 : seg_ok txt_line exp_txt_l0 []).
   { change exp_txt_l0 with ((removelast exp_txt_l0 ++ []) ++ [10]).
     apply (comment_seg txt_line ld_txt_comment); try lit_facts. apply txt_skips. }
-  assert (S1 : seg_ok txt_line (exp_txt_title (ptitle p)) []).
-  { unfold exp_txt_title, fmt_str. rewrite app_assoc. apply (comment_seg txt_line ld_txt_comment); try lit_facts; try assumption. apply txt_skips. }
-  assert (S2 : seg_ok txt_line (exp_txt_author (pauthor p)) []).
-  { unfold exp_txt_author, fmt_str. rewrite app_assoc. apply (comment_seg txt_line ld_txt_comment); try lit_facts; try assumption. apply txt_skips. }
-  assert (S3 : seg_ok txt_line (exp_txt_description (pdescription p)) []).
-  { unfold exp_txt_description, fmt_str. rewrite app_assoc. apply (comment_seg txt_line ld_txt_comment); try lit_facts; try assumption. apply txt_skips. }
+  assert (S1 : seg_ok txt_line (exp_txt_title_verbatim (ptitle p)) []).
+  { unfold exp_txt_title_verbatim, fmt_str. rewrite app_assoc. apply (comment_seg txt_line ld_txt_comment); try lit_facts; try assumption. apply txt_skips. }
+  assert (S2 : seg_ok txt_line (exp_txt_author_verbatim (pauthor p)) []).
+  { unfold exp_txt_author_verbatim, fmt_str. rewrite app_assoc. apply (comment_seg txt_line ld_txt_comment); try lit_facts; try assumption. apply txt_skips. }
+  assert (S3 : seg_ok txt_line (exp_txt_description_verbatim (pdescription p)) []).
+  { unfold exp_txt_description_verbatim, fmt_str. rewrite app_assoc. apply (comment_seg txt_line ld_txt_comment); try lit_facts; try assumption. apply txt_skips. }
   assert (S4 : seg_ok txt_line (exp_txt_count (plen p)) []).
   { unfold exp_txt_count. rewrite app_assoc. apply (count_line_seg txt_line ld_txt_comment); try lit_facts. apply txt_skips. }
   apply S0, S1, S2, S3, S4.
@@ -566,10 +597,10 @@ Proof.
 Qed.
 
 (* ================================================================================================ *)
-(* all five formats                                                                                   *)
+(* all five formats, verbatim exporters                                                               *)
 
-(* what a palette must satisfy for a line-oriented format to be able to carry it: no line feed in the texts
-   the format writes on lines of their own *)
+(* what a palette must satisfy for a line-oriented format to be able to carry it when its texts are copied verbatim:
+   no line feed in the texts the format writes on lines of their own *)
 Definition wf_meta (f : format) (p : palette) : Prop :=
   match f with
   | Hex | Pal => True
@@ -579,20 +610,117 @@ Definition wf_meta (f : format) (p : palette) : Prop :=
 
 Definition colours (p : palette) : list rgb := map crgb (pcolors p).
 
-Lemma export_import_proof f p : bytes_pal p -> wf_meta f p -> load f (export f p) = Some (colours p).
+Lemma verbatim_export_import_proof f p : bytes_pal p -> wf_meta f p -> load f (verbatim_export f p) = Some (colours p).
 Proof.
-  intros Hb Hw. destruct f; cbn [load export wf_meta] in *.
+  intros Hb Hw. destruct f; cbn [load verbatim_export wf_meta] in *.
   - apply export_import_hex_proof, Hb.
   - apply export_import_pal_proof, Hb.
-  - destruct Hw as (H1 & H2 & H3). apply export_import_gpl_proof; assumption.
-  - destruct Hw as (H1 & H2 & H3 & H4). apply export_import_ice_proof; assumption.
-  - destruct Hw as (H1 & H2 & H3). apply export_import_txt_proof; assumption.
+  - destruct Hw as (H1 & H2 & H3). apply verbatim_export_import_gpl; assumption.
+  - destruct Hw as (H1 & H2 & H3 & H4). apply verbatim_export_import_ice; assumption.
+  - destruct Hw as (H1 & H2 & H3). apply verbatim_export_import_txt; assumption.
 Qed.
 
 (* ================================================================================================ *)
-(* the known class C16-metadata-line-feed: a line feed inside a text the format writes on a line of its own.
-   The exporters copy title/author/description/colour names verbatim, so such a text becomes several lines of the
-   file and the loader may read colours out of them. *)
+(* single_line and the exporters of the code                                                          *)
+
+Lemma single_line_no_nl s : no_nl (single_line s).
+Proof.
+  unfold single_line, str_replace_chars, no_nl. induction s as [|c s IH]; [constructor|].
+  cbn [flat_map]. apply Forall_app. split; [|exact IH].
+  unfold single_line_chars, single_line_to. cbn [existsb].
+  destruct (N.eqb_spec c 13) as [->|H13]; [repeat constructor; discriminate|].
+  destruct (N.eqb_spec c 10) as [->|H10]; [repeat constructor; discriminate|].
+  cbn [orb]. repeat constructor. exact H10.
+Qed.
+
+(* a text without carriage return and line feed is printed as it is *)
+Definition no_breaks (s : str) : Prop := Forall (fun c => c <> 13 /\ c <> 10) s.
+
+Lemma single_line_id s : no_breaks s -> single_line s = s.
+Proof.
+  unfold single_line, str_replace_chars, no_breaks. induction s as [|c s IH]; intro H; [reflexivity|].
+  inversion H as [|? ? [H13 H10] Ht]; subst. cbn [flat_map]. rewrite IH by exact Ht.
+  unfold single_line_chars. cbn [existsb].
+  destruct (N.eqb_spec c 13); [contradiction|]. destruct (N.eqb_spec c 10); [contradiction|]. reflexivity.
+Qed.
+
+(* the palette whose texts went through single_line *)
+Definition clean_color (c : color) : color := mkColor (option_map single_line (cname c)) (crgb c).
+Definition clean (p : palette) : palette :=
+  mkPal (single_line (ptitle p)) (single_line (pdescription p)) (single_line (pauthor p)) (map clean_color (pcolors p)).
+
+Lemma flat_map_map {A B C} (g : A -> B) (f : B -> list C) l : flat_map f (map g l) = flat_map (fun x => f (g x)) l.
+Proof. induction l as [|x l IH]; [reflexivity|]. cbn [map flat_map]. rewrite IH. reflexivity. Qed.
+
+Lemma plen_clean p : plen (clean p) = plen p.
+Proof. unfold plen, clean. cbn [pcolors]. rewrite map_length. reflexivity. Qed.
+
+Lemma colours_clean p : colours (clean p) = colours p.
+Proof. unfold colours, clean. cbn [pcolors]. rewrite map_map. reflexivity. Qed.
+
+Lemma bytes_pal_clean p : bytes_pal p -> bytes_pal (clean p).
+Proof.
+  unfold bytes_pal, clean. cbn [pcolors]. intro H. apply Forall_map. exact H.
+Qed.
+
+Lemma wf_meta_clean f p : wf_meta f (clean p).
+Proof.
+  destruct f; cbn [wf_meta clean ptitle pauthor pdescription]; try exact I;
+    repeat split; try apply single_line_no_nl.
+  unfold names_ok. cbn [pcolors]. apply Forall_map. apply Forall_forall. intros c _.
+  unfold clean_color. cbn [cname]. destruct (cname c); cbn [option_map]; [apply single_line_no_nl|exact I].
+Qed.
+
+(* the exporters of the code are the verbatim exporters on the cleaned palette *)
+Lemma export_clean f p : export f p = verbatim_export f (clean p).
+Proof.
+  destruct f; cbn [export verbatim_export].
+  - unfold export_hex, clean. cbn [pcolors]. rewrite flat_map_map. reflexivity.
+  - unfold export_pal. rewrite plen_clean. unfold clean. cbn [pcolors]. rewrite flat_map_map. reflexivity.
+  - unfold export_gpl, verbatim_export_gpl. rewrite plen_clean. unfold clean. cbn [pcolors ptitle pauthor pdescription].
+    rewrite flat_map_map. reflexivity.
+  - unfold export_ice, verbatim_export_ice. rewrite plen_clean. unfold clean. cbn [pcolors ptitle pauthor pdescription].
+    rewrite flat_map_map. do 5 f_equal. apply flat_map_ext. intro c.
+    unfold ice_color_lines, verbatim_ice_color_lines, clean_color. cbn [cname]. destruct (cname c); reflexivity.
+  - unfold export_txt, verbatim_export_txt. rewrite plen_clean. unfold clean. cbn [pcolors ptitle pauthor pdescription].
+    rewrite flat_map_map. reflexivity.
+Qed.
+
+(* the property, for EVERY palette: no condition on title / author / description / colour names *)
+Lemma export_import_proof f p : bytes_pal p -> load f (export f p) = Some (colours p).
+Proof.
+  intro Hb. rewrite export_clean, <- colours_clean.
+  apply verbatim_export_import_proof; [apply bytes_pal_clean, Hb|apply wf_meta_clean].
+Qed.
+
+Lemma export_import_gpl_proof p : bytes_pal p -> load_gpl (export_gpl p) = Some (map crgb (pcolors p)).
+Proof. exact (export_import_proof Gpl p). Qed.
+Lemma export_import_ice_proof p : bytes_pal p -> load_ice (export_ice p) = Some (map crgb (pcolors p)).
+Proof. exact (export_import_proof Ice p). Qed.
+Lemma export_import_txt_proof p : bytes_pal p -> load_txt (export_txt p) = Some (map crgb (pcolors p)).
+Proof. exact (export_import_proof Txt p). Qed.
+
+(* files of palettes whose texts have no line break are byte for byte what the verbatim exporters wrote *)
+Definition no_breaks_meta (p : palette) : Prop :=
+  no_breaks (ptitle p) /\ no_breaks (pauthor p) /\ no_breaks (pdescription p) /\
+  Forall (fun c => match cname c with Some n => no_breaks n | None => True end) (pcolors p).
+
+Lemma clean_id p : no_breaks_meta p -> clean p = p.
+Proof.
+  intros (Ht & Ha & Hd & Hn). destruct p as [t d a cs]. unfold clean. cbn [ptitle pauthor pdescription pcolors] in *.
+  rewrite !single_line_id by assumption. f_equal.
+  induction cs as [|c cs IH]; [reflexivity|]. inversion Hn as [|? ? Hc Hcs]; subst. cbn [map]. rewrite IH by exact Hcs. f_equal.
+  destruct c as [[n|] v]; unfold clean_color; cbn [cname crgb option_map] in *; [rewrite single_line_id by exact Hc|]; reflexivity.
+Qed.
+
+Lemma export_unchanged_without_breaks_proof f p : no_breaks_meta p -> export f p = verbatim_export f p.
+Proof. intro H. rewrite export_clean, clean_id by exact H. reflexivity. Qed.
+
+(* ================================================================================================ *)
+(* the FIXED finding metadata-line-feed-roundtrip-colours-differ (class KnownC16_1): a line feed inside a text the
+   format writes on a line of its own.  The exporters used to copy title/author/description/colour names verbatim
+   (verbatim_export), so such a text became several lines of the file and the loader read colours out of them.  The
+   statements below are about verbatim_export, i.e. about the code before the fix. *)
 
 Definition nl_free (s : str) : bool := forallb (fun c => negb (c =? 10)) s.
 Definition meta_nl_free (f : format) (p : palette) : bool :=
@@ -623,19 +751,22 @@ Proof.
     repeat split; apply no_nl_forallb; assumption.
 Qed.
 
-Lemma export_import_outside_known_proof f p : bytes_pal p -> ~ KnownC16_1 f p -> load f (export f p) = Some (colours p).
+Lemma verbatim_export_import_outside_known_proof f p :
+  bytes_pal p -> ~ KnownC16_1 f p -> load f (verbatim_export f p) = Some (colours p).
 Proof.
-  intros Hb Hk. apply export_import_proof; [exact Hb|]. apply meta_nl_free_wf. unfold KnownC16_1 in Hk.
+  intros Hb Hk. apply verbatim_export_import_proof; [exact Hb|]. apply meta_nl_free_wf. unfold KnownC16_1 in Hk.
   destruct (meta_nl_free f p); [reflexivity|]. exfalso. apply Hk. reflexivity.
 Qed.
 
-(* title "x\n1 2 3 y", one colour (9,9,9): the GPL file reads back as two colours *)
+(* title "x\n1 2 3 y", one colour (9,9,9): the verbatim GPL file reads back as two colours; the file the code writes
+   now has the title on one line and reads back as the palette *)
 Definition known_1_pal : palette := mkPal [120; 10; 49; 32; 50; 32; 51; 32; 121] [] [] [unnamed (9, 9, 9)].
 
 Lemma known_1_witness_proof :
   bytes_pal known_1_pal /\ KnownC16_1 Gpl known_1_pal /\
-  load Gpl (export Gpl known_1_pal) = Some [(1, 2, 3); (9, 9, 9)] /\ colours known_1_pal = [(9, 9, 9)].
-Proof. split; [repeat constructor|]. split; [reflexivity|]. split; vm_compute; reflexivity. Qed.
+  load Gpl (verbatim_export Gpl known_1_pal) = Some [(1, 2, 3); (9, 9, 9)] /\ colours known_1_pal = [(9, 9, 9)] /\
+  load Gpl (export Gpl known_1_pal) = Some [(9, 9, 9)].
+Proof. split; [repeat constructor|]. split; [reflexivity|]. repeat split; vm_compute; reflexivity. Qed.
 
 (* ================================================================================================ *)
 (* the defect that was fixed in the repository: GPL_COLOR_REGEX used to end in \s+(.+)                *)
